@@ -839,4 +839,28 @@ example : (MRef.container 7 1 3 false).addr 0 2 = 9 := by decide
 
 end NonVacuity
 
+/-! ## 5. the rule table, family R of the correspondence: neighbouring wrong variants of two rules, evaluated on
+the model.  The generated lemmas (`Gen/RemoraRules.lean`) state that every rule of the table preserves the
+denotation; these two say that the argument mix-ups the directed witnesses are built to expose DO change it. -/
+section RuleWitnesses
+
+/-- `range(alpha*prod(A,B), r0,r1, c0,c1) = alpha*prod(A[r0:r1, :], B[:, c0:c1])`: with the ROW window on the right
+operand (`B[:, r0:r1]`) the value differs as soon as the two windows differ -/
+theorem range_prod_row_window_on_right_operand_differs :
+    let a : MExp Int := MExp.lit 2 1 fun i _ => (i + 1 : Int)
+    let b : MExp Int := MExp.lit 1 2 fun _ j => (10 ^ j : Int)
+    (MExp.range (MExp.mmprod a b 1) 0 1 1 2).get 0 0 = 10 ∧
+    (MExp.mmprod (MExp.range a 0 1 0 1) (MExp.range b 0 1 1 2) 1).get 0 0 = 10 ∧
+    (MExp.mmprod (MExp.range a 0 1 0 1) (MExp.range b 0 1 0 1) 1).get 0 0 = 1 := by
+  decide
+
+/-- `f2(f1(x)) = (f2 ∘ f1)(x)`: the order of the composition is observable once `f1` carries a folded
+negative factor (`-2*abs`), the witness `sqr(-2*abs(v))` of family R -/
+theorem compose_order_matters :
+    (VExp.unary (VExp.unary (VExp.lit 1 fun _ => (3 : Int)) (fun x => -2 * x.natAbs)) (fun x => x * x)).get 0 = 36 ∧
+    (VExp.unary (VExp.unary (VExp.lit 1 fun _ => (3 : Int)) (fun x => x * x)) (fun x => -2 * x.natAbs)).get 0 = -18 := by
+  decide
+
+end RuleWitnesses
+
 end SharkVerif.C01
